@@ -36,6 +36,12 @@ type Program struct {
 	Sizes []int `json:"read_sizes"`
 	Stop  int   `json:"stop_after"`               // bytes; -1 = read to EOF and once more
 	Form  bool  `json:"multipart_form,omitempty"` // the handler does not read the stream itself: it calls ctx.MultipartForm()
+	// Via "body": the handler does not read the stream itself, it calls ctx.Request.Body() (which reads
+	// the stream to its end and detaches it from the request)
+	Via string `json:"via,omitempty"`
+	// Drop: what the handler does to the request after its reads: "", "SetBodyString", "ResetBody",
+	// "CloseBodyStream", "SetBodyStream" (each detaches the stream from the request)
+	Drop string `json:"drop,omitempty"`
 }
 
 type readLog struct {
@@ -46,6 +52,7 @@ type readLog struct {
 	didExtra  bool
 	zeroReads int
 	calls     int
+	viaBody   bool
 }
 
 var (
@@ -58,6 +65,9 @@ func consume(r io.Reader) ([]byte, error) {
 	p := curProg
 	if p.Form {
 		return nil, nil // the form was taken in beforeEcho
+	}
+	if lg.viaBody {
+		return lg.data, nil
 	}
 	buf := make([]byte, 70000)
 	total := 0
@@ -101,6 +111,31 @@ func beforeEcho(c context.Context, ctx *app.RequestContext) {
 	if curProg.Form && ctx.Request.IsBodyStream() {
 		ctx.MultipartForm() //nolint:errcheck
 	}
+	if curProg.Via == "body" && ctx.Request.IsBodyStream() {
+		b, err := ctx.Request.BodyE()
+		curLog.viaBody = true
+		curLog.data = append([]byte(nil), b...)
+		curLog.err = err
+		if err == nil {
+			curLog.err, curLog.extraErr = io.EOF, io.EOF
+		}
+	}
+}
+
+func afterEcho(c context.Context, ctx *app.RequestContext) {
+	if warmPhase {
+		return
+	}
+	switch curProg.Drop {
+	case "SetBodyString":
+		ctx.Request.SetBodyString("replaced")
+	case "ResetBody":
+		ctx.Request.ResetBody()
+	case "CloseBodyStream":
+		ctx.Request.CloseBodyStream() //nolint:errcheck
+	case "SetBodyStream":
+		ctx.Request.SetBodyStream(strings.NewReader("other"), 5)
+	}
 }
 
 var servers = map[[2]int]*srv.Echo{}
@@ -115,7 +150,7 @@ func server(readBuf, maxBody int) *srv.Echo {
 	if s, ok := servers[k]; ok {
 		return s
 	}
-	s := srv.NewEcho(srv.Config{Stream: true, ReadBuf: readBuf, MaxBody: maxBody, ReadBody: consume, BeforeEcho: beforeEcho})
+	s := srv.NewEcho(srv.Config{Stream: true, ReadBuf: readBuf, MaxBody: maxBody, ReadBody: consume, BeforeEcho: beforeEcho, AfterEcho: afterEcho})
 	servers[k] = s
 	return s
 }
@@ -151,7 +186,7 @@ func netServer(transport string) (*srv.NetEcho, error) {
 	if s, ok := netServers[transport]; ok {
 		return s, nil
 	}
-	cfg := srv.Config{Stream: true, MaxBody: 8 << 20, ReadBody: consume, BeforeEcho: beforeEcho}
+	cfg := srv.Config{Stream: true, MaxBody: 8 << 20, ReadBody: consume, BeforeEcho: beforeEcho, AfterEcho: afterEcho}
 	tr := transport
 	if transport == "netpoll-idle0" {
 		// IdleTimeout 0: after every request the connection goes back to the poller instead of
@@ -232,7 +267,9 @@ func Check(c *Case) string {
 	if obs[0].Method != c.Req.Method || obs[0].URI != c.Req.Target {
 		return fmt.Sprintf("first invocation is %s %s, want %s %s", obs[0].Method, obs[0].URI, c.Req.Method, c.Req.Target)
 	}
-	if !obs[0].Streamed {
+	if !obs[0].Streamed && lg.viaBody {
+		// the handler took the body through Request.Body(): the echo saw the buffered copy
+	} else if !obs[0].Streamed {
 		// no body stream was constructed (request without framing): the handler saw the buffered body
 		if c.Req.Framing != wire.FrNone {
 			return fmt.Sprintf("request with %s framing was not given a body stream in streaming mode", c.Req.Framing)
@@ -372,6 +409,10 @@ func genProgram(t *rapid.T, bodyLen int, chunkEnds []int) Program {
 	if p.Stop < -1 {
 		p.Stop = 0
 	}
+	if rapid.IntRange(0, 5).Draw(t, "viaRequestBody") == 0 {
+		p.Via, p.Stop = "body", -1
+	}
+	p.Drop = rapid.SampledFrom([]string{"", "", "", "SetBodyString", "ResetBody", "CloseBodyStream", "SetBodyStream"}).Draw(t, "drop")
 	return p
 }
 
@@ -404,6 +445,12 @@ func classify(c *Case) (bool, []string) {
 	}
 	if c.Warm > 0 {
 		cls = append(cls, "pooled-context-with-grown-body-buffer")
+	}
+	if c.Prog.Via != "" {
+		cls = append(cls, "handler-calls-Request.Body")
+	}
+	if c.Prog.Drop != "" {
+		cls = append(cls, "handler-detaches-stream-"+c.Prog.Drop)
 	}
 	n := c.Req.BodyLen
 	ends := chunkEnds(c.Req)
